@@ -38,9 +38,48 @@ package codecs
 //@        && !(delta != 0 && old(haspid(data)) && strings.EqualFold(codec, "video/vp8") && (k == old(off2(data)) + 2 || (old(vm(data)) && k == old(off2(data)) + 3)))
 //@        ==> data[k] == old(data[k])
 //@   -- C02: 15-bit picture id: new id = old id + delta (mod 2^15), M bit kept
-//@   ensures pid15: len(data) >= 12 && delta != 0 && old(haspid(data)) && strings.EqualFold(codec, "video/vp8") && old(vm(data)) ==>
+//@   ensures pid15: len(data) >= 12 && old(haspid(data)) && strings.EqualFold(codec, "video/vp8") && old(vm(data)) ==>
 //@        pid15(data) == ((old(pid15(data)) + delta) & 0x7FFF) && vm(data) && isnil(result)
 //@   -- C02: 7-bit picture id: new id = old id + delta (mod 2^7), M bit stays clear
-//@   ensures pid7: len(data) >= 12 && delta != 0 && old(haspid(data)) && strings.EqualFold(codec, "video/vp8") && !old(vm(data)) ==>
+//@   ensures pid7: len(data) >= 12 && old(haspid(data)) && strings.EqualFold(codec, "video/vp8") && !old(vm(data)) ==>
 //@        pid7(data) == ((old(pid7(data)) + uint8(delta)) & 0x7F) && !vm(data) && isnil(result)
 //@   ensures no-delta: len(data) >= 12 && delta == 0 ==> isnil(result)
+//@
+//@ func PacketFlags
+//@   -- treated by callers as a deterministic function of the codec name and the packet bytes
+//@   pure
+//@   safe
+//@   props C04 C12
+//@   modifies nothing
+//@   ensures short: len(buf) < 4 ==> result1 != nil
+//@   -- C01/C02: the seqno and marker reported are those of the packet
+//@   ensures seqno: len(buf) >= 4 ==> result0.Seqno == ((uint16(buf[2]) << 8) | uint16(buf[3]))
+//@   ensures marker: len(buf) >= 4 ==> result0.Marker == ((buf[1] & 0x80) != 0)
+//@   -- C04: layer ids fit the packed 4-bit fields of the layer word
+//@   ensures layer-ids: result0.Tid <= 7 && result0.Sid <= 7
+//@   -- a keyframe is always the start of a frame, and an up-switch point for both kinds of layer
+//@   ensures keyframe-starts: isnil(result1) && result0.Keyframe ==> result0.Start && result0.TidUpSync && result0.SidUpSync
+//@
+//@ func Keyframe
+//@   safe
+//@   props C12
+//@   requires packet: packet != nil
+//@   modifies nothing
+//@   -- name$k is the k-th declaration of that name in the function
+//@   invariant loop 1 av1: 1 <= offset$1 && offset$1 <= len(packet.Payload) && 0 <= i$1 && i$1 <= 3 && w <= 3
+//@   invariant loop 2 h264: 1 <= i$2 && i$2 <= len(packet.Payload) + 2
+//@
+//@ func Keyframe$1
+//@   safe
+//@   inline
+//@   props C12
+//@   invariant loop 1 obu: 0 <= offset && offset <= 4 && 0 <= length && length < 268435456
+//@
+//@ func KeyframeDimensions
+//@   -- the inner "packet == nil" test is dead code under the precondition
+//@   unreachable ret5
+//@   safe
+//@   props C12
+//@   requires packet: packet != nil
+//@   modifies nothing
+//@   invariant loop 1 range: -1 <= rangeindex && rangeindex < len(vp9.Width)
